@@ -40,7 +40,7 @@ func c04r1(r *R) {
 		case *ssa.Return:
 			nret++
 			o.AtI(i)
-			o.Check(c.Expr(x.Results[0]) == nInnerRead+"#0" && c.Expr(x.Results[1]) == nInnerRead+"#1", "Read returns (%s, %s), want exactly the wrapped connection's (n, err)", c.Expr(x.Results[0]), c.Expr(x.Results[1]))
+			o.Check(c.Expr(x.Results[0]) == nInnerRead+"#0" && c.exprKnown(x.Results[1], i.Block()) == nInnerRead+"#1", "Read returns (%s, %s), want exactly the wrapped connection's (n, err)", c.Expr(x.Results[0]), c.Expr(x.Results[1]))
 		case *ssa.Store:
 			if strings.HasPrefix(c.Expr(x.Addr), "p1") {
 				o.AtI(i).Fail("Read writes into the caller's buffer itself: %s", c.Expr(x.Addr))
